@@ -90,6 +90,31 @@ def gen_file(rng, k1=False, small=False):
             'tick': rng.choice([24000000, 0, 1, (1 << 64) - 1])}
 
 
+V2_HEADER = 0x120            # magic .. tick + Padding(0x100): where the thread map starts
+
+
+def offset_sizes(tier):
+    """Sizes a v2 layout is aimed at: the page sizes a kernel aligns to, and — on a changed source or in the thorough tier —
+    every integer in [128, 2^17] the reader source mentions (mined, see tools/kdv/mined.py)."""
+    from .. import mined
+    out = [4096, 16384]
+    if tier != 'quick' or mined.changed_files():
+        rel = 'pykdebugparser/kd_buf_parser.py'
+        out += [v for v in mined.int_constants([rel]).get(rel, []) if 128 <= v <= (1 << 17)]
+    return list(dict.fromkeys(out))
+
+
+def gen_file_at_offset(rng, size):
+    """A V2File whose zero filler ends (= whose first record starts) just before / at / just after file offset `size`, or whose
+    filler is about `size` bytes long."""
+    f = gen_file(rng, small=True)
+    f['recs'] = [gen_record(rng, first='nonzero' if i == 0 else None).hex() for i in range(rng.choice([1, 2, 3, 5]))]
+    used = V2_HEADER + 32 * len(f['threads'])
+    d = rng.choice([-65, -64, -1, 0, 1, 63, 64, 65, 128])
+    f['pad'] = max(0, (size - used + d) if rng.random() < 0.6 else size + d)
+    return f
+
+
 def gen_prior(rng):
     if rng.random() < 0.3:
         return {'tp': [], 'pn': []}
@@ -567,6 +592,16 @@ def correspondence(rep, rng, tier):
                      'KdBufParser(tp, pn).parse(CountingReader) with polluted prior tables; full answer compared (events, '
                      'tables, outcome); oracle: events == records decoded with int.from_bytes, tables == dict '
                      'of the thread list; non-trivial = >1 record and >0 threads')
+    offs = []
+    for size in offset_sizes(tier):
+        offs += [mk_case(gen_file_at_offset(rng, size), gen_prior(rng)) for _ in range(6 if quick else 40)]
+    run_section(rep, 'v2-offsets', offs, line_v2, impl_v2,
+                oracle_fn=lambda c, got: oracle_file(c['file'], got, False),
+                nontrivial_fn=lambda c, got: c['file']['pad'] > 1000,
+                kind_fn=lambda c, got: 'pad%d' % (c['file']['pad'].bit_length()),
+                rule='V2Files whose zero filler ends within 65 bytes of a file offset the kernel aligns to (4096, 16384) or '
+                     'that the reader source mentions (mined integers in [128, 2^17]; on a changed source / thorough tier), or '
+                     'whose filler has about that length; same comparison and oracle as section v2')
     k1 = [mk_case(gen_file(rng, k1=True), gen_prior(rng)) for _ in range(150 if quick else 2000)]
     run_section(rep, 'v2-k1', k1, line_v2, impl_v2,
                 oracle_fn=lambda c, got: oracle_file(c['file'], got, True),
@@ -687,6 +722,7 @@ def replay(path):
     fns = {'v2': (line_v2, impl_v2, lambda c, g: oracle_file(c['file'], g, False)),
            'v2-seq-failed': (line_seq, impl_seq, oracle_seq),
            'v2-junk': (line_v2, impl_v2, lambda c, g: oracle_file(c['file'], g, False)),
+           'v2-offsets': (line_v2, impl_v2, lambda c, g: oracle_file(c['file'], g, False)),
            'v2-k1': (line_v2, impl_v2, lambda c, g: oracle_file(c['file'], g, True)),
            'v2-malformed': (line_v2, impl_v2, None), 'v2-seq': (line_seq, impl_seq, oracle_seq),
            'v2-kevents': (line_kev, impl_kev, oracle_kev)}
